@@ -27,8 +27,8 @@ from harness import pyast_wire as W
 
 META = {
     "id": "C03",
-    "technique": "Coq proof (soundness of a line-by-line model of _eval_const w.r.t. the reference Python semantics Lang/PySem.v by induction over expressions; closedness of name-free folds; a model of the constant environment with shared list objects across if / while / for, its staleness refuted by computed witnesses, and a simulation theorem - residual program with baked-in constants = source program on every control-flow path - inside a freshness guard, by induction over nested statement blocks; a second simulation for the module-level split between static global initialisers, which run before setup(), and run-time assignments: hoisting is invisible because only closed constant right-hand sides are hoisted, refuted for the variant without the name-free test; a wider flow guard: the transpiler model run in lockstep with a flow-sensitive ghost environment, simulation theorem for every program whose fold sites bake in exactly what the ghost justifies - sibling branches of if / elif / else start from the snapshot, never from an earlier sibling; function definitions: body parsed at the def with the formal arguments unknown, run at a later call, theorem for every argument value, def-time staleness refuted; tuple assignment as the transpiler emits it - every right-hand side into a temporary, then the targets - proved to be Python's simultaneous assignment for every environment, arity and overlap of targets and right-hand sides via a frame lemma for the reference evaluator, the target-by-target update refuted; parse-then-emit: IR nodes that bake a list hold list objects resolved only when the whole script is parsed - theorem: every flash_pattern node owns its object, so the emitted program is the snapshot residual for every script, the aliasing shortcut refuted) + extracted-model correspondence with the real _eval_const/_expr_has_name/_to_c_expr/parse() + CPython and compiled-firmware oracles",
-    "level_text": "Theorems C03_* (coq/Props/C03.v) are proved for all expressions / environments about Gallina models of _eval_const, _expr_has_name, _literal_length, the folding call sites and the flow-insensitive constant environment (len(name), flash_pattern(name), lcd.glyph bitmaps; append / remove bookkeeping; dict copies sharing list objects) (operator and cast tables regenerated from parser.py on every run); soundness holds inside an explicit guard and is refuted outside it by computed witnesses that are replayed on the real transpiler (listed findings); the models are run against the real functions on generated expressions, environments and programs, and the property itself (folded value = CPython value; firmware observations = CPython observations) is evaluated on the real artefacts for every generated case inside the guard.",
+    "technique": "Coq proof (soundness of a line-by-line model of _eval_const w.r.t. the reference Python semantics Lang/PySem.v by induction over expressions; closedness of name-free folds; a model of the constant environment across if / while / for - since the repair: child scopes with private copies of the tracked lists, names written in a block forgotten after it and, for a loop, before it - and a simulation theorem - residual program with baked-in constants = source program on every control-flow path, whatever the blocks write - by induction over nested statement blocks, with the invariant 'the environment agrees with the run-time state' exported (C03_env_agrees); the witnesses of the eight repaired stale-fold findings as positive theorems; a second simulation for the module-level split between static global initialisers, which run before setup(), and run-time assignments: hoisting is invisible because only closed constant right-hand sides are hoisted, refuted for the variant without the name-free test; (the flow-sensitive ghost environment of the earlier rounds is gone: the repaired transpiler IS flow-sensitive); function definitions: body parsed at the def with the formal arguments and every name the script binds more than once unknown, run at a later call, theorem for every argument value and whatever the module re-assigns in between; names a function body writes are volatile at module level; tuple assignment as the transpiler emits it - every right-hand side into a temporary, then the targets - proved to be Python's simultaneous assignment for every environment, arity and overlap of targets and right-hand sides via a frame lemma for the reference evaluator, the target-by-target update refuted; parse-then-emit: IR nodes that bake a list hold list objects resolved only when the whole script is parsed - theorem: every flash_pattern node owns its object, so the emitted program is the snapshot residual for every script, the aliasing shortcut refuted) + extracted-model correspondence with the real _eval_const/_expr_has_name/_to_c_expr/parse() + CPython and compiled-firmware oracles",
+    "level_text": "Theorems C03_* (coq/Props/C03.v) are proved for all expressions / environments about Gallina models of _eval_const, _expr_has_name, _literal_length, the folding call sites and the constant environment (len(name), flash_pattern(name), lcd.glyph bitmaps; append / remove bookkeeping; child scopes, forgetting of written names) (operator and cast tables regenerated from parser.py on every run); soundness holds inside an explicit guard of single-statement side conditions (the eight listed stale-fold findings are repaired - kind fixed - and their witnesses are replayed on the real transpiler on every run); the models are run against the real functions on generated expressions, environments and programs, and the property itself (folded value = CPython value; firmware observations = CPython observations) is evaluated on the real artefacts for every generated case inside the guard.",
     "level_note": "Trusted: Coq kernel, the reference semantics Lang/PySem.v (validated against CPython by harness/pysem_check.py), translator harness/gen/safecasts.py, extraction, OCaml driver, the mock Arduino core + g++ as 'device', CPython 3.12 as 'what Python means'. The theorems are about the models; the correspondence bounds their distance from parser.py. Floats are exact rationals in the model: value comparisons are made only where every intermediate float is a binary64 value (measured per case).",
     "design_ref": "DESIGN.md section 4 C03",
 }
@@ -426,9 +426,11 @@ class ProgGen:
             return False
         if any(x not in b for b in self.loop_bound):
             return False
+        # since the repair of the stale-fold findings a known name may be written anywhere: the transpiler forgets it after
+        # (for a loop: before) the block; `forbid` only thins such writes out in the non-flow family
         if not self.guarded or (self.flow and not self.noflow):
             return True
-        return not any(x in f for f in self.forbid)
+        return not any(x in f for f in self.forbid) or self.rng.random() < 0.35
 
     def known(self, env, names):
         return [x for x in names if env.get(x, (None,))[0] == "K" and x not in self.taint]
@@ -468,7 +470,9 @@ class ProgGen:
         for _ in range(4):
             a = self.block(mk_child(), depth + 1, n)
             w = {x for st in a[0] for x in self.written(st)} & entry_known
-            if not (w & self.reads(a[0])):
+            # a body that folds what it writes: on the second pass the read comes after the write - the repaired
+            # transpiler forgets those names before it parses the body; such bodies are kept now (every second one)
+            if not (w & self.reads(a[0])) or self.rng.random() < 0.5:
                 self.taint = t0 | w
                 return a
             for x, v in snap.items():
@@ -595,8 +599,8 @@ class ProgGen:
                     if not self.writable(env, x):
                         continue
                     choices = [str(rng.randint(0, 9))] * 3 + self.levels(env)
-                    if not self.guarded:
-                        choices += [y for y in self.bound(env, RT_N)]
+                    if not self.guarded or rng.random() < 0.3:
+                        choices += [y for y in self.bound(env, RT_N)]      # a run-time argument: the list becomes a run-time value
                     e = rng.choice(choices)
                     if env[x][0] == "K":
                         v = self.evalk(env, e)
@@ -609,7 +613,7 @@ class ProgGen:
                     if not self.writable(env, x):
                         continue
                     if env[x][0] == "K" and env[x][1] and all(v is not None for v in env[x][1]):
-                        if self.guarded or rng.random() < 0.6:
+                        if rng.random() < (0.8 if self.guarded else 0.6):
                             v = rng.choice(env[x][1])
                             env[x][1].remove(v)
                             return ("remove", x, str(v))
@@ -620,7 +624,8 @@ class ProgGen:
                     elif env[x][0] == "M" and not self.guarded:
                         return ("remove", x, str(rng.randint(0, 3)))
             elif r < 0.80:
-                xs = [x for x in self.bound(env, STR_N + LIST_N) if x not in self.taint]
+                # len(name) of a name whose tracked constant went stale in a block (taint): read at run time since the repair
+                xs = [x for x in self.bound(env, STR_N + LIST_N) if x not in self.taint or rng.random() < 0.6]
                 if xs:
                     return ("len", rng.choice(xs))
             elif r < 0.84:
@@ -1103,12 +1108,15 @@ def def_cases(p, call_orcs):
     _, _, params, body = p[idx]
     prefix = [st for st in p[:idx] if st[0] not in ("def", "call")]
     mid, k = [], 0
-    for st in p[idx + 1:]:
+    rest = p[idx + 1:]
+    for j, st in enumerate(rest):
         if st[0] == "call":
             if k < len(call_orcs):
                 ctr = [0]
+                # post: the module statements after this call - _rebound_names counts the binding sites of the whole script
+                post = [x for x in rest[j + 1:] if x[0] not in ("def", "call")]
                 out.append([2, wire_prog(prefix, ctr), [q for q, _ in params], wire_prog(body, ctr), wire_prog(mid, ctr),
-                            [W.enc_val(v) for v in st[3]], call_orcs[k]])
+                            wire_prog(post, ctr), [W.enc_val(v) for v in st[3]], call_orcs[k]])
             k += 1
         elif st[0] != "def":
             mid.append(st)
@@ -1890,22 +1898,33 @@ def shrink_program(ctx, p, orc, dr, ar, loops, rounds=10):
 
 
 def replay_findings(ctx):
-    listed = {f["id"]: f for f in ctx.findings if f.get("kind") != "fixed" and f["id"] in WITNESSES}
+    """every listed witness is replayed on the real artefacts (real parse() + emit(), g++, mock core vs CPython).
+    kind=finding and still failing -> KNOWN-FINDING; kind=fixed and failing again -> a property failure (VIOLATION with
+    the witness as replay): a fixed entry suppresses nothing"""
+    listed = {f["id"]: f for f in ctx.findings if f["id"] in WITNESSES}
     if not listed:
         return
     ids = list(listed)
     progs = [WITNESSES[i]["prog"] for i in ids]
     real, scripts, _ = run_real(progs, [WITNESSES[i]["dr"] for i in ids], [WITNESSES[i]["ar"] for i in ids], batch=1)
-    for i, r in zip(ids, real):
-        if r["status"] == "ran" and r["fw"] != r["py"]["obs"]:
+    for i, r, sc in zip(ids, real, scripts):
+        failing = r["status"] == "ran" and r["fw"] != r["py"]["obs"]
+        fixed = listed[i].get("kind") == "fixed"
+        ctx.coverage.setdefault("known_findings_replayed", []).append(
+            {"id": i, "kind": listed[i].get("kind"), "status": r["status"], "reproduces": failing})
+        if failing and fixed:
+            ctx.fail(f"the repaired defect {i} is back: firmware observations differ from CPython's on its witness",
+                     {"script": sc, "digital_read(4)": WITNESSES[i]["dr"], "analog_read(14)": WITNESSES[i]["ar"], "main_loop_passes": 0,
+                      "finding": i}, r["py"]["obs"], r["fw"], key="fixed-finding-returned:" + i)
+        elif failing:
             ctx.known(f"{i}: {listed[i]['what']}")
 
 
 def run(ctx: C.Ctx):
     stats = collections.Counter()
+    replay_findings(ctx)          # first: a repaired defect that is back is the first VIOLATION reported
     n_a, d_a, s_a = layer_a(ctx, stats)
     n_b, d_b, s_b, n_sk = layer_b(ctx, stats)
-    replay_findings(ctx)
     ctx.coverage.update({
         "evaluations": n_a + n_b,
         "distinct_nontrivial": d_a + d_b,
@@ -1914,17 +1933,17 @@ def run(ctx: C.Ctx):
         "rule": "(round 3 additions - A: sensor-model-shaped expressions ('HC-SR04' spellings, concatenations, names bound to model strings) through Ultrasonic(7, 8, model=<e>) and every sampled expression through Led(<e>): the folded model / pin is what the argument names at run time. B: tuple assignments at every depth and in every program family (swaps and 3-rotations of int / str names whose tracked constants differ, `x, y = <new string>, len(x)` and three-target forms whose last right-hand side reads both earlier targets, pairs of expressions where the second reads the first target; all-new pairs at module level), each followed by the fold sites that read the targets (len(target), a glyph bitmap built from the targets, append(target) + flash_pattern); flash_pattern(name) followed by append / remove of constants to the same list - in the same block, in a taken-or-not branch, in a for body - and a second flash_pattern; try / except blocks (sent to the model as `if <true>: body else: handler`; the head of every handler prints a marker so that a CPython run that enters a handler is discarded); removes that prefer a duplicated value; a family of small scenario programs built around one such fold site each; a failing program is shrunk by deleting simple statements (re-checked against the guard of the extracted model) before it is reported.) A: boundary expressions (every node kind _eval_const looks at, each operator with int/float/bool/str operands, error sources, hostile forms) x 3-5 environments (known int/float/bool/str/list/tuple, a marker, an unbound name), then seeded random expressions (harness/pyast_wire.gen_expr, depth 1-4) - each through the extracted model and the real _eval_const/_expr_has_name/_to_c_expr, a sample also through parse() at the blink/backlight/glyph/sleep call sites with the environment set up by assignments; non-trivial (A) = distinct (expression, environment) on which the real evaluator returned a value inside the guard and the CPython comparison ran. B: seeded programs (assign / augmented assign / run-time read / append / remove / len(name) / flash_pattern(name) / lcd.glyph(0, [rows]) / mon.write(name) = the run-time value of a variable; at module level a 'retune' pattern: a constant is re-assigned and then used in the FIRST assignment of another module-level name, which is then printed - the static-initialiser vs run-time-assignment split; a fifth of the programs additionally use tuple assignment, oracle only) under if, while, for and - every fourth program - the sketch's main loop `while True:` run 1-3 passes; 80 % generated inside the guard; every second guarded program is generated for the FLOW guard: tracked constants are re-assigned / appended inside branches and loop bodies, if / elif / else chains of 1-3 branches where 60 % of the branches with later siblings re-assign a tracked constant and the later siblings fold it (len / glyph row) from the snapshot, loop bodies that write tracked constants nothing folds, for-loop variables named like a tracked module constant followed by a re-assignment with a probe (a string formatted from the binder, and its length) in the body; a further quarter of the programs define a function whose formal arguments are mostly named like tracked module constants of the same type, with len(argument) / glyph / flash_pattern / len(module constant) / locals in the body, module statements between the def and 1-2 calls (some re-assigning a constant the body folds), arguments that differ from the same-named constants) with one seeded execution path each (branches taken or not, loops 0-3 times): real parse() IR vs model residual (folded constants; which module-level first assignments became static initialisers and which stayed in setup()), CPython run vs model reference semantics, firmware run (batched sketches, g++, mock core) vs model firmware outputs; non-trivial (B) = distinct program inside the guard that ran on both sides with >= 2 observations.",
         "samples": [{"expr": x} for x in s_a] + [{"program": x} for x in s_b],
         "distribution": dict(sorted(stats.items())),
-        "guard": "B (wider, this round): flow_ok (ConstFlow.cblock's flag) - at every fold site the transpiler baked in exactly what the flow-sensitive ghost environment justifies (branches start from the bindings before the if with a private store; names written in a branch / loop body are unknown afterwards and inside the loop) - and def_ok for every call of a defined function (body justified by the def-time bindings no module statement before the call writes, formal arguments unknown); a program goes to the oracle when the extracted model says is_fresh or flow_ok, the hoisting side conditions hold and every call is inside def_ok. A: in_guard (no one-argument max/min; unary plus only on int/float operands - decided by CPython in the oracle), no variable named like a builtin of _SAFE_NAME_REFERENCES. B: is_fresh (ConstEnv.tblock's ghost flag): no assignment / append / remove to a name with a known transpile-time value inside an if / while / for body, remove only of a known value that is present, append only of a known value - outside: findings F-C03-*; split_ok = is_fresh and the hoisting side conditions of C03_global_split_partial (always true for generated programs: no for-loop variable is assigned elsewhere)",
+        "guard": "A: in_guard (no one-argument max/min), no variable named like a builtin of _SAFE_NAME_REFERENCES. B: is_fresh (ConstEnv.tblock's flag) - since the repair of the stale-fold findings only single-statement side conditions: every folded expression inside in_guard, no variable named like a builtin the evaluator interprets, a remove with a constant argument finds it in the tracked list; NOTHING about where a name is assigned / appended to / removed from (branches, loop bodies, try bodies, run-time arguments are all inside) - and def_ok for every call of a defined function (the same side conditions for prefix, body and the statements before the call; formal arguments not named like a builtin); split_ok = is_fresh and the hoisting side conditions of C03_global_split_partial. A program goes to the oracle when the extracted model says so. The witnesses of the eight repaired findings (kind=fixed) are replayed first on every run: one that fails again is reported as a VIOLATION with the witness as replay.",
         "unmodelled": ["IEEE specials, float results that are not exactly representable are compared only CPython-vs-implementation (exact), not against the rational model",
                        "sensor model names and Led pins are oracle-only fold sites (real parse() vs CPython value; no Gallina function for the model-name canonicalisation); other device constructors' pins follow the same _resolve pattern and are not run",
                        "list aliasing between variables (b = a), flash_pattern / glyph with an inline literal containing names (ast.literal_eval path) in the environment model",
-                       "len(name) INSIDE a right-hand side / append / remove argument is folded by the real translation (_to_c_expr); the model keeps those expressions symbolic and instead makes each such sub-term a fold site of the flow guard (ConstFlow.lens_agree; inside is_fresh the environment is right by the simulation invariant) - the model-vs-real firmware tie is skipped for programs outside both guards that contain one",
+                       "len(name) INSIDE a right-hand side / append / remove argument is folded by the real translation (_to_c_expr); the model keeps those expressions symbolic - inside is_fresh the environment agrees with the run-time state at every program point (C03_env_agrees), so the folded length is the run-time length (C03_literal_length_sound); the model-vs-real firmware tie is skipped for programs outside the guard that contain one",
+                       "function bodies that write module-level names (ctx['_function_written']: volatile at module level from the def on) are in the model (ConstEnv.tstep's parameter vol, C03_def_partial, C03_def_written_is_volatile) but the generated function bodies only assign locals; calls of functions from inside blocks, functions calling functions are not generated",
                        "tuple assignment: the model has the temporaries form (Lang/ConstTuple.v, proved simultaneous); where all targets are new at module level the real transpiler declares the names one by one without temporaries and the harness sends single assignments (tie: globals / top-level assignments / folded constants); tuple assignment of list VALUES (aliasing) and targets that are partly new at module level (setup()-local declarations: C01/C06) are not generated",
                        "try / except: modelled as a two-way branch whose body is taken (a body that raises nothing); handlers that actually run (exceptions at run time), finally / else clauses, typed handlers are outside",
                        "IR nodes other than LedFlashPattern that hold lists (LCDGlyph.bitmap is built entry by entry from a freshly evaluated list and cannot alias the environment: names bound to lists do not evaluate) - covered by reading the real IR after parse() in the correspondence, not by Lang/ConstNodes.v",
                        "statements the parser drops without translating (p[0] = 7, p.pop(), p.insert(), p.reverse(), p.clear(), p.extend(): C07's silent-skip findings) leave the tracked list and the firmware's list equally unchanged - never generated here",
                        "functions that call functions / recursion / return values feeding fold sites / list arguments (the def model is: call-free body, str / int arguments, module-level def and calls), names promoted out of blocks are not listed among the model's globals",
-                       "the module-level hoisting theorem (C03_global_split_partial) is proved under is_fresh; for programs that are only inside the flow guard the hoisting half is covered by the correspondence (globals / top-level assignments) and the firmware oracle, not by a theorem",
                        "a for-loop variable named like a module variable that is assigned inside the loop body or read after the loop without re-assignment (C++ scopes the loop variable: C01's business) - generated only with a re-assignment after the loop; the model-vs-firmware tie is skipped for those programs",
                        "str(float) / float(str) / complex results: OutOfModel in PySem (skipped, counted)"],
         "trusted_base": C.COMMON_TRUSTED + ["harness/gen/safecasts.py (operator / cast / safe-name tables of parser.py)",
